@@ -66,7 +66,8 @@ def run(ctx: Ctx):
         if wide:
             end_t, warm_t = 12, 3
         ctl = dc.random_run(ctx, ctx.rng, conc, end_t, warm_t, "pause", cmds=["Start"], ncmds=1,
-                            maxev=ctx.rng.choice([16, 24]) if wide else ctx.rng.choice([6, 12, 20]), wide=wide, p_endrep=0.15 if i % 5 == 0 else 0.0)
+                            maxev=ctx.rng.choice([16, 24]) if wide else ctx.rng.choice([6, 12, 20]), wide=wide, p_endrep=0.15 if i % 5 == 0 else 0.0,
+                            p_cancel=0.0 if i % 6 == 5 else None)     # (every other wide program grows its heap by insertions only: no re-heapify in between)
         ctx.evaluations += 1
         if ctl.errors:
             ctx.violation(dc.err_key(ctl.errors), f"random program {i}: {ctl.errors}", {"trace": dd.clean_trace(ctl.trace)})
